@@ -3,7 +3,7 @@ import z3
 from .common import *  # noqa
 from .shared import *  # noqa
 from vc.reflect import reflect_bool_method
-from vc.speclemmas import STREAM, PUBL
+from vc.speclemmas import STREAM, PUBL, MAPL
 from contracts.pattern_family import c12_contracts
 from contracts.lemlib import library, lemma_unit, dsl_only_unit, lib_bounded, PROP_FILE, TAUT_FILE, MATCH_RULES, match_rule_unit
 from contracts.refine import dsl_unit, PFILE
@@ -22,6 +22,7 @@ def build(repo, tier):
     lib = py_lib(JE)
     lib.update(STREAM)
     lib.update(PUBL)
+    lib.update({k: v for k, v in MAPL.items() if v is not None})
     pid = 'C10'
     infos, skipped = library(repo)
     us = [Unit(f'{pid}/py/library is assembled from DSL rules only', dsl_only_unit(repo))]
@@ -34,6 +35,7 @@ def build(repo, tier):
         us.append(Unit(f'{pid}/py/Tautology.{name}[matching contract]', match_rule_unit(repo, cs, infos, name), info={'split_depth': 1}))
     for r in RULES:
         us.append(Unit(f'{pid}/py/ProofExp.{r} keeps thunks good', dsl_unit(repo, cs, r), info={'split_depth': 1}))
+    us.append(Unit(f'{pid}/py/ProofExp.dynamic_inst keeps thunks good', dsl_unit(repo, cs, 'dynamic_inst'), info={'split_depth': 1}))
     bounded = {}
     for r in ('dynamic_inst',):
         for k in (1, 2, 3):
